@@ -38,6 +38,11 @@ def build_case(data, mode):
     # validity / score accounting do not depend on completeness of the search: bound the n-best search,
     # which otherwise explores every derivation when fewer than nbest parses exist
     case['config']['max_step'] = 20000
+    # the accounting is stated for every unary penalty: in a quarter of the cases a negative one (a bonus per unary
+    # node; the search is then no longer guaranteed optimal, but a score must still be the score of its tree)
+    tail = data[-12] if len(data) >= 12 else 0
+    if tail % 4 == 0:
+        case['config']['unary_penalty'] = -[0.5, 0.125, 1.0, 0.25][(tail // 4) % 4]
     return case
 
 
